@@ -1,5 +1,5 @@
 (* Props/C14.v -- property theorems for C14 (dejitter, morph). *)
-From PraatIO Require Import Tier.TierModel Tier.CtorProofs Tier.AdjustProofs.
+From PraatIO Require Import Tier.TierModel Tier.CtorProofs Tier.AdjustProofs Textgrid.TgModel Textgrid.TgProofs.
 
 (* the reference timestamps are a strictly increasing list *)
 Theorem C14_reference_times_sorted_set l : StronglySorted Z.lt (zsort_uniq l).
@@ -87,3 +87,13 @@ Theorem C14_morph_length_mismatch t g filt :
   length (ients t) <> length (ients g) -> morph_i t g filt = Err SafeZipException.
 Proof. exact (morph_i_length_mismatch t g filt). Qed.
 Print Assumptions C14_morph_length_mismatch.
+
+(* praatio_scripts.alignBoundariesAcrossTiers: the textgrid keeps its tiers under the same names in the
+   same order; the reference tier is untouched and every other tier is that tier's own dejitter
+   against the reference tier's timestamps -- selected by its NAME, whatever other names look like *)
+Theorem C14_align_tierwise g n d g' :
+  NoDup (names g) -> tg_align g n d = Ok g' ->
+  exists ref, find_tier n (tiers g) = Some ref
+  /\ Forall2 (aligned n (timestamps_of ref) d) (tiers g) (tiers g').
+Proof. exact (tg_align_tierwise g n d g'). Qed.
+Print Assumptions C14_align_tierwise.
